@@ -887,9 +887,16 @@ func multipartParams(body []byte, boundary string) ([]Param, error) {
 			return nil, err
 		}
 
+		// Part.FileName reduces the name to its last path element; the entry
+		// has the name that was sent.
+		filename := p.FileName()
+		if _, dp, err := mime.ParseMediaType(p.Header.Get("Content-Disposition")); err == nil && dp["filename"] != "" {
+			filename = dp["filename"]
+		}
+
 		params = append(params, Param{
 			Name:        p.FormName(),
-			Filename:    p.FileName(),
+			Filename:    filename,
 			ContentType: p.Header.Get("Content-Type"),
 			Value:       string(value),
 		})
